@@ -268,6 +268,19 @@ func c13Gen(r *vfRand, i int, adv bool) *zz.In {
 		in.Reqs = zz.DefaultReqs(g, in.Kind, in.Doc)
 		return in
 	}
+	if !adv && i%11 == 6 {
+		// inherited / overridable fields of the Proxy: filter-level x pool-level values x memoryCache x
+		// compression x failureCodes, enumerated in rotation (occasionally perturbed by one mutation)
+		k := i/11 + int(vfSeed()%1000)*29
+		in.Cat, in.Kind = "filter", "Proxy"
+		doc := zz.ProxyInheritDoc(k % zz.ProxyInheritCombos)
+		if r.Chance(1, 6) {
+			g.Mutate(doc, zz.SpecType("filter", "Proxy"), 0)
+		}
+		in.Doc = doc
+		in.Reqs = zz.DefaultReqs(g, in.Kind, in.Doc)
+		return in
+	}
 	if !adv && i%5 == 2 {
 		// collections with a single blank entry: every (collection leaf, variant) pair in rotation
 		plan := zz.BlankPlan()
